@@ -6,6 +6,7 @@ import (
 	"io"
 	"os"
 	"path"
+	"sync/atomic"
 	"time"
 )
 
@@ -31,7 +32,29 @@ func (f File) Open() (io.ReadCloser, error) {
 	if f.OpenErr != nil {
 		return nil, f.OpenErr
 	}
-	return io.NopCloser(bytes.NewReader(f.Data)), nil
+	cur := Open.Add(1)
+	for {
+		p := Peak.Load()
+		if cur <= p || Peak.CompareAndSwap(p, cur) {
+			break
+		}
+	}
+	return &handle{Reader: bytes.NewReader(f.Data)}, nil
+}
+
+// Open counts the handles that are open right now (over all goroutines), Peak the largest value seen.
+var Open, Peak atomic.Int64
+
+type handle struct {
+	io.Reader
+	closed atomic.Bool
+}
+
+func (h *handle) Close() error {
+	if h.closed.CompareAndSwap(false, true) {
+		Open.Add(-1)
+	}
+	return nil
 }
 
 type info struct{ f File }
